@@ -56,7 +56,7 @@ theorem validTree_drop_mid {b : Bool} {q : Nat} {vq : Value} {l : List HTree} {A
         obtain ⟨a1, a2, _⟩ := noAdj_append.1 h
         exact noAdj_append.2 ⟨a1, noAdj_tail a2, hng rfl⟩
   · rw [Fmap.validList_append] at h6 ⊢
-    rw [validList_cons] at h6
+    rw [fs_validList_cons] at h6
     simp only [Bool.and_eq_true] at h6 ⊢
     exact ⟨h6.1, h6.2.2⟩
 
@@ -132,7 +132,7 @@ mutual
     | [] => fun _ => cleanL_nil
     | k :: ks => by
       intro hv
-      rw [validList_cons, Bool.and_eq_true] at hv
+      rw [fs_validList_cons, Bool.and_eq_true] at hv
       rw [cleanL_cons, Bool.and_eq_true]
       exact ⟨cleanT_of_valid k hv.1, cleanL_of_valid ks hv.2⟩
 end
